@@ -27,6 +27,9 @@ pub struct KyteaSpec {
     pub words: Vec<(String, u8)>, // word, membership mask
     pub dict_vec: Vec<i16>,
     pub extra_entry_weights: usize, // KyTea stores more weights per entry than vaporetto keeps
+    /// write failure-link (suffix) outputs on every state like a real KyTea automaton
+    #[serde(default)]
+    pub inherit_outputs: bool,
 }
 
 struct W(Vec<u8>);
@@ -62,7 +65,7 @@ fn cidx(map: &[char], c: char) -> u16 {
 }
 
 /// Writes a trie dictionary: keys -> entry index (entries written by `write_entry`).
-fn write_dict(w: &mut W, map: &[char], n_dicts: u8, keys: &[Vec<char>], write_entry: &dyn Fn(&mut W, usize)) {
+fn write_dict(w: &mut W, map: &[char], n_dicts: u8, keys: &[Vec<char>], inherit: bool, write_entry: &dyn Fn(&mut W, usize)) {
     w.u8(n_dicts);
     if keys.is_empty() {
         w.u32(0);
@@ -90,8 +93,18 @@ fn write_dict(w: &mut W, map: &[char], n_dicts: u8, keys: &[Vec<char>], write_en
         }
         sts[cur].out = Some(ei);
     }
+    // the string spelled by each state
+    let mut paths: Vec<Vec<char>> = vec![vec![]; sts.len()];
+    for i in 0..sts.len() {
+        let here = paths[i].clone();
+        for (&c, &n) in &sts[i].gotos {
+            let mut p = here.clone();
+            p.push(c);
+            paths[n] = p;
+        }
+    }
     w.u32(sts.len() as u32);
-    for st in &sts {
+    for (si, st) in sts.iter().enumerate() {
         w.u32(0); // failure link (unused by the converter)
         w.u32(st.gotos.len() as u32);
         // KyTea does not promise an order; write in reverse to exercise the reader's sort
@@ -99,17 +112,26 @@ fn write_dict(w: &mut W, map: &[char], n_dicts: u8, keys: &[Vec<char>], write_en
             w.u16(cidx(map, c));
             w.u32(n as u32);
         }
-        match st.out {
-            Some(e) => {
-                w.u32(1);
-                w.u32(e as u32);
-                w.u8(1);
-            }
-            None => {
-                w.u32(0);
-                w.u8(0);
+        // outputs as KyTea's Aho-Corasick automaton stores them: the state's own key first (if it
+        // is one), then every key that is a proper suffix of the state's string (inherited through
+        // failure links) — also on states that are NOT keys themselves; `is_branch` marks keys
+        let mut outs: Vec<u32> = vec![];
+        if let Some(e) = st.out {
+            outs.push(e as u32);
+        }
+        if inherit {
+            let path = &paths[si];
+            for start in 1..path.len() {
+                if let Some(ei) = keys.iter().position(|k| k[..] == path[start..]) {
+                    outs.push(ei as u32);
+                }
             }
         }
+        w.u32(outs.len() as u32);
+        for o in &outs {
+            w.u32(*o);
+        }
+        w.u8(st.out.is_some() as u8);
     }
     w.u32(keys.len() as u32);
     for i in 0..keys.len() {
@@ -151,10 +173,10 @@ pub fn write_kytea(k: &KyteaSpec) -> Vec<u8> {
     w.f64(1.5);
     w.u8(1); // feature lookup active
     let ck: Vec<Vec<char>> = k.char_ngrams.iter().map(|(s, _)| s.chars().collect()).collect();
-    write_dict(&mut w, &k.char_map, 0, &ck, &|w, i| w.vec_i16(&k.char_ngrams[i].1));
+    write_dict(&mut w, &k.char_map, 0, &ck, k.inherit_outputs, &|w, i| w.vec_i16(&k.char_ngrams[i].1));
     let tk: Vec<Vec<char>> = k.type_ngrams.iter().map(|(s, _)| s.chars().collect()).collect();
-    write_dict(&mut w, &k.char_map, 0, &tk, &|w, i| w.vec_i16(&k.type_ngrams[i].1));
-    write_dict(&mut w, &k.char_map, 0, &[], &|_, _| {}); // self dict
+    write_dict(&mut w, &k.char_map, 0, &tk, k.inherit_outputs, &|w, i| w.vec_i16(&k.type_ngrams[i].1));
+    write_dict(&mut w, &k.char_map, 0, &[], false, &|_, _| {}); // self dict
     w.vec_i16(&k.dict_vec);
     w.vec_i16(&[k.bias]);
     w.vec_i16(&[]);
@@ -167,7 +189,7 @@ pub fn write_kytea(k: &KyteaSpec) -> Vec<u8> {
     }
     // dictionary
     let wk: Vec<Vec<char>> = k.words.iter().map(|(s, _)| s.chars().collect()).collect();
-    write_dict(&mut w, &k.char_map, k.n_dicts, &wk, &|w, i| {
+    write_dict(&mut w, &k.char_map, k.n_dicts, &wk, k.inherit_outputs, &|w, i| {
         write_string(w, &k.char_map, &k.words[i].0);
         for _ in 0..k.n_tags {
             w.u32(1);
@@ -180,7 +202,7 @@ pub fn write_kytea(k: &KyteaSpec) -> Vec<u8> {
         }
     });
     // subword dictionary: empty
-    write_dict(&mut w, &k.char_map, 0, &[], &|_, _| {});
+    write_dict(&mut w, &k.char_map, 0, &[], false, &|_, _| {});
     w.0
 }
 
@@ -347,8 +369,9 @@ pub fn specs(tier: Tier) -> Vec<(String, KyteaSpec)> {
                     words: vec![],
                     dict_vec: vec![],
                     extra_entry_weights: extra,
+                    inherit_outputs: i % 2 == 0,
                 };
-                out.push((format!("ngrams map={mi} cw={cw} tw={tw} c={:?} t={:?}", cs.iter().map(|&j| cp[j]).collect::<Vec<_>>(), ts.iter().map(|&j| tp[j]).collect::<Vec<_>>()), k));
+                out.push((format!("ngrams map={mi} cw={cw} tw={tw} inh={} c={:?} t={:?}", (i % 2 == 0) as u8, cs.iter().map(|&j| cp[j]).collect::<Vec<_>>(), ts.iter().map(|&j| tp[j]).collect::<Vec<_>>()), k));
             }
             for (i, ts) in tsets.iter().enumerate().skip(1) {
                 let cs = &csets[1 + (i * 3) % (csets.len() - 1)];
@@ -365,6 +388,7 @@ pub fn specs(tier: Tier) -> Vec<(String, KyteaSpec)> {
                     words: vec![],
                     dict_vec: vec![],
                     extra_entry_weights: 0,
+                    inherit_outputs: i % 2 == 1,
                 };
                 out.push((format!("types map={mi} cw={cw} tw={tw} c={:?} t={:?}", cs.iter().map(|&j| cp[j]).collect::<Vec<_>>(), ts.iter().map(|&j| tp[j]).collect::<Vec<_>>()), k));
             }
@@ -402,6 +426,7 @@ pub fn specs(tier: Tier) -> Vec<(String, KyteaSpec)> {
                             words,
                             dict_vec: dv,
                             extra_entry_weights: 0,
+                            inherit_outputs: a % 2 == 0,
                         };
                         out.push((format!("dict map={mi} n_dicts={n_dicts} dict_n={dict_n} words={:?}", k.words), k));
                     }
